@@ -71,6 +71,10 @@ Proof.
   destruct l1, o1, l2, o2; lia.
 Qed.
 
+Lemma combine_pre_and_ok w1 w2 : window_ok w1 = true -> window_ok w2 = true ->
+  combine_pre (fst w1) (snd w1) (fst w2) (snd w2) = true /\ window_ok (combine w1 w2) = true.
+Proof. intros H1 H2. split; [exact (combine_pre_ok w1 w2 H1 H2) | exact (combine_ok w1 w2 H1 H2)]. Qed.
+
 Lemma combine_no_window_r w : window_ok w = true -> forall R, win (combine w no_window) R = win w R.
 Proof. intros H R. rewrite combine_win by (auto; reflexivity). apply win_no_window. Qed.
 
